@@ -262,6 +262,11 @@ func readAnno(v eval.Value) (variantsOut, error) {
 
 // evalVariantsPair interprets variants.GetVariantsPair on text rows.
 func evalVariantsPair(c *core.Ctx, tabs *Tables, refRow, qryRow string, regions []regionSpec) (variantsOut, error) {
+	return evalVariantsPairWith(c, tabs, refRow, qryRow, regions, nil)
+}
+
+// evalVariantsPairWith: preRegions, if given, are the (regions, intergenic) values returned by an interpreted constructor.
+func evalVariantsPairWith(c *core.Ctx, tabs *Tables, refRow, qryRow string, regions []regionSpec, preRegions []eval.Value) (variantsOut, error) {
 	fn := c.LookupFunc("pkg/variants", "GetVariantsPair")
 	off := c.LookupFunc("pkg/variants", "GetMSAOffsets")
 	if fn == nil || off == nil {
@@ -282,8 +287,12 @@ func evalVariantsPair(c *core.Ctx, tabs *Tables, refRow, qryRow string, regions 
 	for _, p := range intergenic(regions, len(ungapped)) {
 		inter = append(inter, eval.K(int64(p)))
 	}
+	var regsV, interV eval.Value = eval.NewSlice(regs...), eval.NewSlice(inter...)
+	if preRegions != nil {
+		regsV, interV = preRegions[0], preRegions[1]
+	}
 	v, err := ev.CallFunc(fn, encodeRow(tabs, refRow), encodeRow(tabs, qryRow), eval.S("ref"), eval.S("qry"), eval.K(3),
-		eval.NewSlice(regs...), eval.NewSlice(inter...), ot[0], ot[1])
+		regsV, interV, ot[0], ot[1])
 	if err != nil {
 		return variantsOut{}, err
 	}
